@@ -9,16 +9,13 @@ import traceback
 sys.path.insert(0, os.path.dirname(os.path.abspath(__file__)))
 import vlib  # noqa: E402
 from vlib import Broken, Ctx, cfg, log  # noqa: E402
-import props_alg  # noqa: E402
+import glob  # noqa: E402
+import importlib  # noqa: E402
 
 PROPS = {}
-PROPS.update(props_alg.PROPS)
-for mod in ("props_proto", "props_case", "props_misc"):
-    try:
-        m = __import__(mod)
-        PROPS.update(m.PROPS)
-    except ImportError:
-        pass
+for _f in sorted(glob.glob(os.path.join(os.path.dirname(os.path.abspath(__file__)), "props_*.py"))):
+    _m = importlib.import_module(os.path.basename(_f)[:-3])
+    PROPS.update(_m.PROPS)
 
 
 def main():
